@@ -35,4 +35,14 @@ DetailedBalance == \A x, y \in Pts(c) : x # y =>
 RECURSIVE Reach(_, _)
 Reach(S, n) == IF n = 0 THEN S ELSE Reach(S \cup {y \in Pts(c) : \E x \in S : cnt[x][y] > 0}, n - 1)
 Irreducible == Reach({1}, NP[c]) = Pts(c)
+
+\* ---- the chain that is actually STORED when rejected proposals are retried inside the step (DESIGN section 6, F1) ----
+\* escape count a(x) = number of (k,u) draws that leave x; the stored ("jump") chain moves x -> y with probability cnt[x][y]/a(x)
+Esc(x) == Cardinality({ku \in (1..NK) \X (1..NU) : obs[x][ku[1]][ku[2]] # x})
+\* it is reversible w.r.t. pi * a (follows from DetailedBalance) ...
+JumpBalancePiA == \A x, y \in Pts(c) : (x # y /\ Esc(x) > 0 /\ Esc(y) > 0) =>
+        Wt[c][x] * Pow2(Emax - En[c][x]) * cnt[x][y] = Wt[c][y] * Pow2(Emax - En[c][y]) * cnt[y][x]
+\* ... and NOT w.r.t. pi unless the escape probability is constant: TLC is expected to refute this one
+JumpBalancePi == \A x, y \in Pts(c) : (x # y /\ Esc(x) > 0 /\ Esc(y) > 0) =>
+        Wt[c][x] * Pow2(Emax - En[c][x]) * cnt[x][y] * Esc(y) = Wt[c][y] * Pow2(Emax - En[c][y]) * cnt[y][x] * Esc(x)
 =============================================================================
